@@ -21,6 +21,7 @@ from pvc.core import Sym
 
 MODULES = common.RR_MODULES + common.UR_MODULES + ['dassh.core', 'dassh.assembly']
 PROPERTY = 'C04'
+LEAN_LEMMAS = ['convex_lower', 'convex_upper', 'diag_nonneg']        # /verif/lean/Ghost.lean, checked in the thorough tier
 FUNCTIONS = [
     'dassh.region_rodded:_calculate_int_dz', 'dassh.region_rodded:_calculate_byp_dz',
     'dassh.region_rodded:_cons1_111', 'dassh.region_rodded:_cons1_112', 'dassh.region_rodded:_cons2_122',
